@@ -5,7 +5,9 @@ Case format (JSON):
   env     {"batch": null|n, "gen": bool (read() returns a generator), "inters": [[ [key, valspec], … ], …]}
           valspec: null | int | str | {"f":[n,d]} float | {"b":0|1} bool | {"l":[…]} list | {"t":[…]} tuple | {"d":[[k,v],…]} dict
           key 'rewards' holds either {"l":[numbers]} (sequence rewards) or {"rfn":{kind,…}} (functional rewards)
-  learner {"fmt","has_score","batch_mode","kw_keys","script":[{"idx","free","p","kw","s"}]}
+  learner {"fmt","has_score","batch_mode","kw_keys","script":[{"idx","free","p","pint","kw","s"}], "prewrap": bool}
+  then    optional [{"cfg","env"}, …]: further evaluations run afterwards with the SAME learner object (a history); every
+          evaluation is judged on its own
 """
 import json
 import os
@@ -162,34 +164,56 @@ def canon_row(row):
     return sorted([[str(k), cn(v)] for k, v in row.items() if k not in TIMING], key=lambda kv: kv[0])
 
 
-def run_impl(case):
-    """run the real SequentialCB exactly as Experiment's ProcessTasks does: list(SafeEvaluator(val).evaluate(env, lrn))"""
+def episodes(case):
+    """the evaluations of a case in order: [(cfg, env)], all with case['learner']"""
+    return [(case["cfg"], case["env"])] + [(t["cfg"], t["env"]) for t in case.get("then", [])]
+
+
+def episode_case(case, k):
+    cfg, env = episodes(case)[k]
+    return {"cfg": cfg, "env": env, "learner": case["learner"]}
+
+
+def run_history(case):
+    """run the real SequentialCB exactly as Experiment's ProcessTasks does, list(SafeEvaluator(val).evaluate(env, lrn)), once per
+    episode and always with the SAME learner object (the recording learner itself, or one SafeLearner wrapped around it when
+    learner['prewrap']).  Returns one observation per episode: exception, rows, the calls the learner saw during that episode and
+    the learner's script position when the episode started."""
     from coba.context import CobaContext, NullLogger
     from coba.evaluators.sequential import SequentialCB
-    from coba.safety import SafeEvaluator
+    from coba.safety import SafeEvaluator, SafeLearner
     from props.c06_learners import RecLearner
-    cfg, L = case["cfg"], case["learner"]
-    old_logger = CobaContext.logger
-    CobaContext.logger = NullLogger()
-    CobaContext.learning_info.clear()
+    L = case["learner"]
     script = [dict(e, free=mk(e.get("free")), kw={k: mk(v) for k, v in e.get("kw", {}).items()}) for e in L["script"]]
     lrn = RecLearner(script, L["fmt"], L["has_score"], L.get("batch_mode", "aware"), L.get("kw_keys", ()))
-    out = {"exc": None, "rows": None, "raw_rows": 0}
+    given = SafeLearner(lrn) if L.get("prewrap") else lrn
+    outs = []
+    old_logger = CobaContext.logger
+    CobaContext.logger = NullLogger()
     try:
-        ev = SequentialCB(record=list(cfg["record"]), learn=cfg["learn"], eval=cfg["eval"])
-        env = CaseEnv(case["env"]["inters"], case["env"].get("batch"), case["env"].get("gen", False))
-        rows = list(SafeEvaluator(ev).evaluate(env, lrn))
-        out["rows"] = [canon_row(r) for r in rows]
-        out["timing"] = [sorted(k for k in r if k in TIMING) for r in rows]
-    except Exception as e:       # noqa: any exception is an observable here
-        out["exc"] = type(e).__name__
-        out["msg"] = str(e)[:300]
+        for cfg, envd in episodes(case):
+            CobaContext.learning_info.clear()
+            n0 = len(lrn.calls)
+            out = {"exc": None, "rows": None, "s0": [lrn.n_pred, lrn.n_score]}
+            try:
+                ev = SequentialCB(record=list(cfg["record"]), learn=cfg["learn"], eval=cfg["eval"])
+                env = CaseEnv(envd["inters"], envd.get("batch"), envd.get("gen", False))
+                rows = list(SafeEvaluator(ev).evaluate(env, given))
+                out["rows"] = [canon_row(r) for r in rows]
+            except Exception as e:       # noqa: any exception is an observable here
+                out["exc"] = type(e).__name__
+                out["msg"] = str(e)[:300]
+            out["calls"] = [dict(c) for c in lrn.calls[n0:]]
+            outs.append(out)
     finally:
         CobaContext.logger = old_logger
         CobaContext.learning_info.clear()
-    out["calls"] = [{k: v for k, v in c.items()} for c in lrn.calls]
-    out["probes"] = lrn.probes
-    return out
+    return outs
+
+
+def run_impl(case):
+    """first (or only) evaluation of a case"""
+    return run_history(case)[0]
 
 
 # ------------------------------------------------------------------ the property, read directly (B)
@@ -477,7 +501,7 @@ def model_fld(key, v, domain):
     return {"t": "none"} if x is None else {"t": "val", "v": vstr(x)}
 
 
-def model_request(case):
+def model_request(case, s0=(0, 0)):
     cfg, L, env = case["cfg"], case["learner"], case["env"]
     frees = [mk(e.get("free")) for e in L["script"]]
     menv = []
@@ -493,7 +517,7 @@ def model_request(case):
     script = [{"idx": e["idx"], "free": vstr(mk(e.get("free"))), "p": e.get("p") if has_p else None,
                "kw": [[k, vstr(mk(e["kw"][k]))] for k in L.get("kw_keys", ())] if has_k else [], "s": e.get("s", [1, 2])} for e in L["script"]]
     return {"cfg": {"learn": cfg["learn"], "eval": cfg["eval"], "record": cfg["record"]}, "batch": env.get("batch"),
-            "env": menv, "learner": {"has_score": L["has_score"], "script": script}}
+            "env": menv, "learner": {"has_score": L["has_score"], "script": script}, "s0": list(s0)}
 
 
 def mval(sv):
@@ -744,7 +768,13 @@ def fmts_for(style):
 PROBS = [[1, 1], [1, 2], [1, 4], [1, 8], [1, 2], [1, 4], [3, 4], [3, 10], [1, 10], [1, 3]]
 
 
-def gen_case(rng, tier="quick", boundary=False):
+# logged propensities: ordinary ones, plus tiny ones (importance weights of 10^3..10^9 must not be clipped; the dyadic
+# ones keep reward/probability exact) and exactly 1.0
+LOGGED_PROBS = PROBS + [[1, 1], [1, 1000], [1, 10000], [1, 10 ** 9], [1, 4096], [1, 2 ** 20], [1, 2 ** 30], [1, 4096]]
+
+
+def gen_episode(rng, boundary=False):
+    """one (cfg, env) pair + the action style that restricts the learner's prediction format"""
     learn = rng.choice(["on", "on", "off", "ips", None])
     ev = rng.choice(["on", "on", "ips", "ips", None])
     r = rng.below(10)
@@ -816,7 +846,7 @@ def gen_case(rng, tier="quick", boundary=False):
         if has_reward:
             pairs.append(["reward", rng.choice([0, {"f": [0, 1]}]) if rng.chance(0.15) else gen_num(rng)])
         if has_prob:
-            p = rng.choice(PROBS)
+            p = rng.choice(LOGGED_PROBS)
             pairs.append(["probability", {"f": p} if p != [1, 1] or rng.chance(0.5) else 1])
         for k in extras:
             pairs.append([k, gen_any(rng)])
@@ -830,8 +860,26 @@ def gen_case(rng, tier="quick", boundary=False):
     batch = None if rng.chance(0.6) else rng.choice([1, 2, 2, 3, 4])
     env = {"batch": batch, "gen": rng.chance(0.5), "inters": inters}
 
-    has_score = rng.chance(0.6 if ev == "ips" else 0.2)
-    fmt = rng.choice(fmts_for(astyle if has_actions else "int"))
+    return cfg, env, (astyle if has_actions else "int")
+
+
+def gen_case(rng, tier="quick", boundary=False):
+    """a case = one evaluation, or (25%) a short history of 2-3 evaluations of the SAME learner object -- plain or already
+    wrapped in a SafeLearner -- over environments that differ in batching / context kind / action set (`then`)"""
+    cfg, env, style = gen_episode(rng, boundary)
+    then, styles = [], [style]
+    if rng.chance(0.25):
+        for _ in range(rng.choice([1, 1, 2])):
+            c2, e2, s2 = gen_episode(rng, True)
+            if rng.chance(0.5):                       # same interactions and mode, other batching: the cleanest contrast
+                e2 = dict(env, batch=(rng.choice([1, 2, 2, 3]) if not env.get("batch") else None))
+                c2, s2 = cfg, style
+            then.append({"cfg": c2, "env": e2})
+            styles.append(s2)
+    evs = [cfg["eval"]] + [t["cfg"]["eval"] for t in then]
+    has_score = rng.chance(0.6 if "ips" in evs else 0.2)
+    fmts = [f for f in FMTS_ALL if all(f in fmts_for(st) for st in styles)]
+    fmt = rng.choice(fmts)
     kw_keys = rng.sample(["i", "tag", "z"], rng.choice([0, 1, 1, 2, 2])) if fmt.endswith("K") else []   # (a, {}) is legal
     script = []
     noprob = rng.chance(0.08)      # a learner either always or never reports a probability (consistent format)
@@ -840,7 +888,11 @@ def gen_case(rng, tier="quick", boundary=False):
                        "pint": rng.chance(0.5),
                        "kw": {k: gen_any(rng, 1) for k in kw_keys}, "s": rng.choice([[1, 2], [1, 4], [1, 1], [0, 1], [3, 4]])})
     L = {"fmt": fmt, "has_score": has_score, "batch_mode": rng.choice(["aware", "unaware"]), "kw_keys": kw_keys, "script": script}
-    return {"cfg": cfg, "env": env, "learner": L}
+    case = {"cfg": cfg, "env": env, "learner": L}
+    if then:
+        case["then"] = then
+        L["prewrap"] = rng.chance(0.5)
+    return case
 
 
 # ------------------------------------------------------------------ the property
@@ -893,6 +945,22 @@ def corpus_cases():
     add("on", "on", dflt, cont, fmt="dAP")
     add("on", "on", allrec, cont, fmt="dA", batch=2)
     add("on", "on", dflt, [])
+    # histories: the same learner object (plain / already wrapped in SafeLearner) evaluated un-batched, batched, un-batched
+    for prewrap in (True, False):
+        for fmt, bm in (("AP", "aware"), ("dAPK", "aware"), ("A", "unaware")):
+            for first_batch, second_batch in ((None, 2), (2, None), (3, 1)):
+                c0 = {"cfg": {"learn": "on", "eval": "on", "record": dflt}, "env": {"batch": first_batch, "gen": False, "inters": sim},
+                      "learner": dict(L(fmt=fmt, bm=bm, kw=("i",) if fmt.endswith("K") else ()), prewrap=prewrap),
+                      "then": [{"cfg": {"learn": "on", "eval": "on", "record": dflt}, "env": {"batch": second_batch, "gen": False, "inters": sim}},
+                               {"cfg": {"learn": "ips", "eval": "ips", "record": allrec}, "env": {"batch": first_batch, "gen": True, "inters": both}}]}
+                cs.append(c0)
+    # tiny logged propensities with the learner playing the logged action (idx 0 of a one-entry script; logged action = actions[0])
+    for pr in ([1, 4096], [1, 10000], [1, 10 ** 9], [1, 2 ** 30]):
+        tiny = [[["context", i], ["actions", {"l": [7, 8, 9]}], ["rewards", {"l": [1, 2, 3]}], ["action", 7], ["reward", {"f": [i + 1, 2]}], ["probability", {"f": pr}]]
+                for i in range(3)]
+        one = [{"idx": 0, "free": 0, "p": [1, 2], "kw": {}, "s": [1, 2]}]
+        for learn, ev, hs in (("ips", None, False), (None, "ips", False), ("ips", "ips", False), (None, "ips", True), ("off", "ips", True)):
+            add(learn, ev, ["reward"] if hs else dflt, tiny, fmt="AP", script=one, has_score=hs)
     # integer ids that do not survive float(): SafeLearner rewrites 0/1 (and only those) to floats
     B1, B2 = 2 ** 53 + 1, 2 ** 53 + 3
     big = [[["context", {"t": [1]}], ["actions", {"l": [0, B1, B2]}], ["rewards", {"l": [{"f": [1, 8]}, {"f": [1, 2]}, {"f": [7, 8]}]}], ["tag", "a"]],
@@ -963,41 +1031,79 @@ class C06(Property):
         return gen_case(rng, tier, boundary=True)
 
     def evaluate(self, case, driver):
-        impl = run_impl(case)
-        again = None
-        fails, tags = monitor(case, impl)
-        cfg, env, L = case["cfg"], case["env"], case["learner"]
-        tags += ["learn:%s" % cfg["learn"], "eval:%s" % cfg["eval"], "batch:%s" % (env.get("batch") or 0), "n:%d" % min(len(env["inters"]), 5),
-                 "fmt:" + L["fmt"], "score:%s" % L["has_score"], "bm:" + L.get("batch_mode", "aware")]
-        tags += ["rec:" + r for r in cfg["record"]]
-        if env["inters"]:
-            d = idict(env["inters"][0])
-            tags.append("keys:" + "".join(k[0].upper() if k in d else "-" for k in ("context", "actions", "rewards", "action", "reward", "probability")))
-            if "rewards" in d:
-                tags.append("rewards:" + (d["rewards"]["rfn"]["kind"] if "rfn" in d["rewards"] else "list"))
-            tags.append("extras:%d" % len([k for k in d if k not in RESERVED]))
-        if impl["exc"]:
-            tags.append("raised:" + impl["exc"])
-        model = None
-        if driver is not None:
-            ans = driver.ask(model_request(case))
-            model = ans["model"]
-            gap_only = False
+        obs = run_history(case)
+        L = case["learner"]
+        fails, tags, models, smalls = [], [], [], []
+        n_eps = len(obs)
+        if n_eps > 1:
+            tags += ["history:%d" % n_eps, "prewrap:%s" % bool(L.get("prewrap"))]
+        valid_all, n_inters = True, 0
+        for k, impl in enumerate(obs):
+            ecase = episode_case(case, k)
+            cfg, env = ecase["cfg"], ecase["env"]
+            efails, etags = monitor(ecase, impl)
+            etags += ["learn:%s" % cfg["learn"], "eval:%s" % cfg["eval"], "batch:%s" % (env.get("batch") or 0), "n:%d" % min(len(env["inters"]), 5),
+                      "fmt:" + L["fmt"], "score:%s" % L["has_score"], "bm:" + L.get("batch_mode", "aware")]
+            etags += ["rec:" + r for r in cfg["record"]]
             if env["inters"]:
-                miss = [k for k in documented_required(cfg, L["has_score"]) if k not in idict(env["inters"][0])]
-                gap_only = bool(miss) and all(known_gap(k, cfg, L["has_score"]) is not None for k in miss)
-            if gap_only:
-                tags.append("A-skipped:documented-but-unenforced-requirement")
-            elif not any(f["kind"] == "B" for f in fails):
-                fails += compare_A(case, impl, ans)
-            fails += compare_C(ans)
-            if ans.get("hyp"):
-                tags.append("hyp")
-        valid = bool(env["inters"]) and not any(t.startswith("reject:") for t in tags)
-        small = {"exc": impl["exc"], "msg": impl.get("msg"), "rows": impl["rows"], "calls": [strip_call(c) for c in impl["calls"]]}
-        return {"fails": fails, "nontrivial": valid and len(env["inters"]) >= 2, "tags": tags, "impl": small, "model": model}
+                d = idict(env["inters"][0])
+                etags.append("keys:" + "".join(x[0].upper() if x in d else "-" for x in ("context", "actions", "rewards", "action", "reward", "probability")))
+                if "rewards" in d:
+                    etags.append("rewards:" + (d["rewards"]["rfn"]["kind"] if "rfn" in d["rewards"] else "list"))
+                etags.append("extras:%d" % len([x for x in d if x not in RESERVED]))
+                if "probability" in d and any(mk(idict(p_)["probability"]) is not None and mk(idict(p_)["probability"]) < 0.001 for p_ in env["inters"]):
+                    etags.append("tiny-logged-probability")
+            if impl["exc"]:
+                etags.append("raised:" + impl["exc"])
+            model = None
+            if driver is not None:
+                ans = driver.ask(model_request(ecase, impl["s0"]))
+                model = ans["model"]
+                gap_only = False
+                if env["inters"]:
+                    miss = [x for x in documented_required(cfg, L["has_score"]) if x not in idict(env["inters"][0])]
+                    gap_only = bool(miss) and all(known_gap(x, cfg, L["has_score"]) is not None for x in miss)
+                if gap_only:
+                    etags.append("A-skipped:documented-but-unenforced-requirement")
+                elif not any(f["kind"] == "B" for f in efails):
+                    efails += compare_A(ecase, impl, ans)
+                efails += compare_C(ans)
+                if ans.get("hyp"):
+                    etags.append("hyp")
+            if k > 0:
+                for f in efails:
+                    f["what"] = "evaluation #%d with the same learner object (%s), after %s: %s" % (
+                        k + 1, "a SafeLearner handed to evaluate" if L.get("prewrap") else "the plain learner",
+                        "; ".join("#%d batch=%s learn=%s eval=%s" % (q + 1, e_[1].get("batch"), e_[0]["learn"], e_[0]["eval"]) for q, e_ in enumerate(episodes(case)[:k])),
+                        f["what"])
+            fails += efails
+            tags += etags
+            models.append(model)
+            smalls.append({"exc": impl["exc"], "msg": impl.get("msg"), "rows": impl["rows"], "calls": [strip_call(c) for c in impl["calls"]]})
+            valid_all = valid_all and bool(env["inters"]) and not any(t.startswith("reject:") for t in etags)
+            n_inters += len(env["inters"])
+        return {"fails": fails, "nontrivial": valid_all and n_inters >= 2, "tags": tags,
+                "impl": smalls[0] if n_eps == 1 else smalls, "model": models[0] if n_eps == 1 else models}
 
     def shrink(self, case):
+        then = case.get("then", [])
+        if then:
+            rest = {k: v for k, v in case.items() if k != "then"}
+            yield dict(rest, learner={k: v for k, v in case["learner"].items() if k != "prewrap"})      # first evaluation only
+            for k in range(len(then)):
+                kept = then[:k] + then[k + 1:]
+                yield dict(case, then=kept) if kept else dict(rest, learner={kk: v for kk, v in case["learner"].items() if kk != "prewrap"})
+            yield dict(case, cfg=then[0]["cfg"], env=then[0]["env"], then=then[1:]) if len(then) > 1 else \
+                dict(rest, cfg=then[0]["cfg"], env=then[0]["env"], learner={kk: v for kk, v in case["learner"].items() if kk != "prewrap"})
+            if case["learner"].get("prewrap"):
+                yield dict(case, learner=dict(case["learner"], prewrap=False))
+            for k, t in enumerate(then):              # shrink the later environments
+                ti = t["env"]["inters"]
+                for q in range(len(ti)):
+                    if len(ti) > 1:
+                        yield dict(case, then=then[:k] + [dict(t, env=dict(t["env"], inters=ti[:q] + ti[q + 1:]))] + then[k + 1:])
+                for r in t["cfg"]["record"]:
+                    yield dict(case, then=then[:k] + [dict(t, cfg=dict(t["cfg"], record=[x for x in t["cfg"]["record"] if x != r]))] + then[k + 1:])
         env, cfg, L = case["env"], case["cfg"], case["learner"]
         inters = env["inters"]
         for k in range(len(inters)):
@@ -1030,12 +1136,14 @@ class C06(Property):
 
     def snippet(self, case):
         return ("import sys, json; sys.path[:0] = ['/repo', '/verif/harness']\n"
-                "from props.c06 import run_impl, monitor\n"
+                "from props.c06 import run_history, episode_case, monitor\n"
                 "case = json.loads(%r)\n"
-                "impl = run_impl(case)   # builds the environment + recording learner and calls SafeEvaluator(SequentialCB(**cfg)).evaluate(env, learner)\n"
-                "print('exception:', impl['exc'], impl.get('msg'))\nprint('learner saw:')\n"
-                "for c in impl['calls']: print('  ', {k: v for k, v in c.items() if k in ('m','ctx','acts','a','r','p','kw')})\n"
-                "print('rows:', impl['rows'])\nprint('property monitor:', [f['what'] for f in monitor(case, impl)[0]])\n" % json.dumps(case))
+                "# builds the environment(s) + ONE recording learner (wrapped in SafeLearner when learner['prewrap']) and calls\n"
+                "# SafeEvaluator(SequentialCB(**cfg)).evaluate(env, learner) once per episode (case, then case['then'][...])\n"
+                "for k, impl in enumerate(run_history(case)):\n"
+                "    print('--- evaluation', k + 1, 'exception:', impl['exc'], impl.get('msg'))\n    print('learner saw:')\n"
+                "    for c in impl['calls']: print('  ', {k_: v for k_, v in c.items() if k_ in ('m','ctx','acts','a','r','p','kw')})\n"
+                "    print('rows:', impl['rows'])\n    print('property monitor:', [f['what'] for f in monitor(episode_case(case, k), impl)[0]])\n" % json.dumps(case))
 
 
 PROPERTY = C06()
